@@ -16,7 +16,8 @@ out = ["# Seeded property-breaking changes and what the checks report", "",
        "Every change below was written by an independent sub-agent (property text + private worktree only), compiles,",
        "passes the repository's 59 tests, and comes with a demonstration that fails with the change and passes without it;",
        "all of that was re-run here before the change was kept (`meta.json` has the commands and outcomes).",
-       "`-1/-2` = first round, `-3/-4` = second round (asked to avoid the first round's ideas), `-5/-6` = third round.",
+       "`-1/-2` = first round, `-3/-4` = second round (asked to avoid the first round's ideas), `-5/-6` = third, `-7/-8` = fourth, `-9/-10` = fifth, `-11/-12` = sixth round",
+       "(each round was given the ideas of all earlier rounds as a do-not-reuse list).",
        "Column *quick checks* = checks whose quick tier exits 1 with a VIOLATION line when the patch is applied to /repo",
        "(final state of the harness; `tools/run_seeded.sh` reproduces the column).", "",
        "| change | breaks | needs, in order to manifest | quick checks that report it | history |", "|---|---|---|---|---|"]
@@ -24,7 +25,7 @@ missed_first = 0
 for name, m in rows:
     det = matrix.get(name, " ".join(m['detected_by_quick_checks']))
     h = m['history']
-    if 'missed' in h or 'first version: only' in h or 'outside the first' in h or 'first version: C02 and C04 but not' in h or 'first version: reported' in h:
+    if 'missed' in h or 'detected by the E2s streams added' in h or 'first version: only' in h or 'outside the first' in h or 'first version: C02 and C04 but not' in h or 'first version: reported' in h:
         missed_first += 1
     out.append("| %s | %s | %s | %s | %s |" % (name, m['property'], m['needs_to_manifest'].replace('|', '/'), det, h.replace('|', '/')))
 out += ["", "%d changes; %d of them were missed (or only reported indirectly) by the version of the checks that existed when they arrived and led to a new engine or a sharper oracle; with the current harness every one is reported by the check of the property it was written against." % (len(rows), missed_first)]
